@@ -29,7 +29,7 @@ func (o c20op) String() string { return fmt.Sprintf("%s(%d->%d,z%d,n%d)", o.kind
 
 var c20honestKinds = []string{"send", "send", "send", "ack", "ack", "clear", "attach", "detach"}
 var c20badKinds = []string{"stale", "future", "foreign", "replay", "badsig", "tamper-data", "tamper-sig", "unsigned", "emptysig", "hash0", "otherctx", "nilmsg", "emptydata",
-	"ack-unsol", "ack-dup", "clear-unsol", "init-again", "nilbody",
+	"ack-unsol", "ack-dup", "clear-unsol", "init-again", "nilbody", "future-alone", "ack-future-alone", "clear-future-alone",
 	"preinit-send", "preinit-ack", "preinit-seqno", "preinit-self", "preinit-badid", "preinit-empty"}
 
 // c20histKinds: HISTORY-dependent submissions, derived from a message the
@@ -414,6 +414,96 @@ func runC20(r *vf.Run, pool, extra []*keys.Identity, idx int, prog []c20op) {
 					r.Case(sig, false)
 					return
 				}
+			}
+			continue
+		}
+		if strings.HasSuffix(o.kind, "-alone") {
+			// a request stamped with a FUTURE session_seqno submitted while the partner
+			// of the session is NOT attached. Attachment state of the pair first:
+			//   never    both ends gone (relay state of the pair released), x attaches alone
+			//   left     both attached, then the partner's call ends
+			//   left-re  as left, then x attaches again (its own call replaced)
+			//   as-is    whatever the program left, minus the partner
+			hostile++
+			kr := [2]int{y, x}
+			mode := []string{"never", "left", "left-re", "as-is"}[(o.n>>8)%4]
+			q := func() bool {
+				if !w.quiesce() {
+					r.Case(sig, false)
+					return false
+				}
+				return true
+			}
+			switch mode {
+			case "never":
+				n := 0
+				for _, kk := range [][2]int{k, kr} {
+					if cc := s.live(kk[0], kk[1]); cc != nil {
+						w.kill(cc)
+						n++
+					}
+				}
+				if n > 0 && !q() {
+					return
+				}
+			case "left", "left-re":
+				if !s.ensure(x, y) {
+					r.Case(sig, false)
+					return
+				}
+			}
+			if cc := s.live(y, x); cc != nil {
+				w.kill(cc)
+				if !q() {
+					return
+				}
+			}
+			if s.live(x, y) == nil || mode == "left-re" {
+				s.cur[k] = w.session(x, y)
+				if !q() {
+					return
+				}
+			}
+			c := s.live(x, y)
+			if c == nil {
+				continue
+			}
+			e, _, attB := w.h.Srv.VerifSessionEpoch(pidS(x), pidS(y))
+			_ = attB
+			fut, name := c20future(e, o.n)
+			r.Count("op_"+o.kind, 1)
+			r.Distinct("c20_future_while_partner_absent", o.kind+"/"+mode+"/"+name)
+			switch o.kind {
+			case "future-alone":
+				m := g7sig.Honest(pool[x], payload(), nextSeq(x))
+				submitMsg(c, fut, e, m, true, "honest-future-epoch")
+			case "ack-future-alone":
+				s.unsol++
+				w.submitAck(c, fut, e, s.unsol)
+			case "clear-future-alone":
+				seq := s.lastSent[k]
+				if seq == 0 {
+					s.unsol++
+					seq = s.unsol
+				}
+				w.submitClear(c, fut, e, seq)
+			}
+			if !q() {
+				return
+			}
+			if o.kind == "future-alone" {
+				// "messages for a session epoch newer than the server's are rejected":
+				// demanded for SendMsg (DESIGN 8); acks / clears only must have no effect
+				ret, err := c.Returned()
+				if !ret || err == nil {
+					w.violate("seqno/future-not-rejected", fmt.Sprintf("%s sent a correctly signed message with session_seqno %d (%s) > epoch %d while its partner was not attached (%s) but the call did not end with an error (returned=%v err=%v)", w.cstr(c), fut, name, e, mode, ret, err))
+				} else {
+					r.Count("future_seqno_rejected_while_partner_absent", 1)
+				}
+			} else if ret, err := c.Returned(); ret && err != nil {
+				r.Count("future_seqno_on_ack_or_clear_rejected_while_partner_absent", 1)
+			} else {
+				r.Count("future_seqno_on_ack_or_clear_ignored_while_partner_absent", 1)
 			}
 			continue
 		}
